@@ -20,8 +20,8 @@ PAGE = 4096
 
 SELF_PID_DEFAULT = 1000
 
-# access kinds that concern one process (fault targets for C03)
-PIDREL = True
+PROCFS_KINDS = ("open", "read", "stat", "lstat", "readlink", "listdir",
+                "access")
 
 
 def oserr(eno, path=None):
@@ -149,12 +149,13 @@ STATE_NAMES = {"R": "running", "S": "sleeping", "D": "disk sleep",
 
 class Ctx:
     """Per (simulated) thread execution context."""
-    __slots__ = ("thread", "op", "acc", "inop")
+    __slots__ = ("thread", "op", "acc", "inop", "pacc")
 
     def __init__(self, thread=0):
         self.thread = thread
         self.op = -1
         self.acc = 0
+        self.pacc = 0
         self.inop = False
 
 
@@ -234,6 +235,7 @@ class SimKernel:
         self.ctxs = {0: Ctx(0)}
         self.cur_thread = 0
         self.pending = {}   # (thread, op, k) -> [events]
+        self.pending_p = {}  # (thread, op, n-th procfs access) -> [events]
         self.faults = {}    # (thread, op, k) -> fault dict
         self.timed = []     # sorted list of (t, seq, ev)
         self._tseq = 0
@@ -276,6 +278,7 @@ class SimKernel:
         c = self.ctxs[self.cur_thread if thread is None else thread]
         c.op = op_index
         c.acc = 0
+        c.pacc = 0
         c.inop = True
 
     def end_op(self, thread=None):
@@ -284,6 +287,19 @@ class SimKernel:
 
     def schedule_at_access(self, thread, op, k, ev):
         self.pending.setdefault((thread, op, k), []).append(ev)
+
+    def schedule_at_procfs(self, thread, op, n, ev):
+        """Fire ev just before the n-th pid-related procfs access of op."""
+        self.pending_p.setdefault((thread, op, n), []).append(ev)
+
+    def snap_at(self, version):
+        best = None
+        for v, s in self.snaps:
+            if v <= version:
+                best = s
+            else:
+                break
+        return best
 
     def schedule_fault(self, thread, op, k, fault):
         self.faults[(thread, op, k)] = fault
@@ -309,6 +325,14 @@ class SimKernel:
             if evs:
                 for ev in evs:
                     self.apply_event(ev, inside=True)
+            if pidrel and kind in PROCFS_KINDS:
+                n = c.pacc
+                c.pacc += 1
+                if self.pending_p:
+                    evs = self.pending_p.pop((c.thread, c.op, n), None)
+                    if evs:
+                        for ev in evs:
+                            self.apply_event(ev, inside=True)
         inc = None
         if pid is not None:
             p = self.procs.get(pid)
@@ -1328,6 +1352,7 @@ class SimKernel:
         if p is None:
             raise self._err(errno.ESRCH)
         if self._denied(p):
+            self._effect("set_denied", pid, p)
             raise self._err(errno.EPERM)
         self._effect("setpriority", pid, p, value=value)
         p.nice = max(-20, min(19, int(value)))
@@ -1348,6 +1373,7 @@ class SimKernel:
         if p is None:
             raise self._err(errno.ESRCH)
         if self._denied(p):
+            self._effect("set_denied", pid, p)
             raise self._err(errno.EPERM)
         self._effect("ioprio_set", pid, p, value=(int(ioclass), int(value)))
         p.ioprio = (int(ioclass), int(value))
@@ -1374,6 +1400,7 @@ class SimKernel:
         if p is None:
             raise self._err(errno.ESRCH)
         if self._denied(p):
+            self._effect("set_denied", pid, p)
             raise self._err(errno.EPERM)
         el = set(self.eligible_cpus(p))
         eff = [c for c in cpus if c in el]
@@ -1397,6 +1424,7 @@ class SimKernel:
             if len(limits) != 2:
                 raise ValueError("expected a tuple of 2 integers")
             if self._denied(p):
+                self._effect("set_denied", pid, p)
                 raise self._err(errno.EPERM)
             self._effect("prlimit", pid, p, value=(res, limits))
             p.rlimits[res] = limits
